@@ -2328,8 +2328,14 @@ import copy as copy_lib  # pylint: disable=g-import-not-at-top,g-bad-import-orde
 EXTRA_SPACES.append(
     ('wide', 'pg.List([pg.oneof(range(6))] * 5 + [pg.floatv(0.0, 1.0), pg.manyof(2, [1, 2, 3, 4])])'))
 EXTRA_SPACES.append(('perm2', 'pg.Dict(p=pg.permutate([1, 2, 3]), q=pg.permutate([1, 2, 3, 4]))'))
+# Four permutation points (both documented forms) next to another decision:
+# the choice made by a decision point filter that returns fewer than 4 of
+# them (the default where.ANY returns 1) is visible in the children.
+EXTRA_SPACES.append(
+    ('perm4x', 'pg.Dict(p=pg.permutate([1, 2, 3, 4]), q=pg.permutate([5, 6, 7, 8]), '
+     'r=pg.manyof(4, [1, 2, 3, 4]), o=pg.oneof([1, 2]), s=pg.permutate([1, 2, 3, 4]))'))
 
-SYM_STEPS = (0, 1, 2)
+SYM_STEPS = (0, 1, 2, 3)
 SYM_DNA_KINDS = ('mut', 'rec2', 'recN')
 SYM_POP_SIZE = dict(sel=6, nested=6, mut=2, rec2=2, recN=3, evo=0)
 
@@ -2538,15 +2544,16 @@ def sym_route(route, a_src, b_src, delta_src, back_src, ctx, kind, name, seed):
 _SYM_REF = {}
 
 
-def sym_reference(b_src, ctx, kind, name, seed):
-  """What a freshly constructed operator b_src (inside ctx) does."""
-  k = (b_src, ctx, kind, name, seed)
+def sym_reference(b_src, ctx, kind, name, seed, n_calls=None):
+  """What a freshly constructed operator b_src (inside ctx) does (in n_calls
+  successive calls, if more than the default number is asked for)."""
+  k = (b_src, ctx, kind, name, seed, n_calls)
   if k not in _SYM_REF:
     pop = sym_pop(kind, name, seed)
     keep = []
     try:
       outer, okind = sym_context(ctx, kind, make(b_src))
-      res = sym_calls(outer, okind, name, pop, keep)
+      res = sym_calls(outer, okind, name, pop, keep, n_calls)
     except Exception as e:  # pylint: disable=broad-except
       res = ('exc', type(e).__name__, str(e)[:200])
     valid = all(check_child(c, space(name)) is None for c in (keep[0] if keep else [])
@@ -2564,7 +2571,9 @@ def sym_check(route, a_src, b_src, delta_src, back_src, ctx, kind, name, seed, v
   3 for list operators).
   """
   S = space(name)
-  want, ref_valid = sym_reference(b_src, ctx, kind, name, seed)
+  default_calls = 2 if kind in SYM_DNA_KINDS else 3
+  want, ref_valid = sym_reference(b_src, ctx, kind, name, seed,
+                                  n_calls if (n_calls or 0) > default_calls else None)
   pop = sym_pop(kind, name, seed)
   keep = []
   try:
@@ -2599,9 +2608,9 @@ def sym_check(route, a_src, b_src, delta_src, back_src, ctx, kind, name, seed, v
   return out
 
 
-def sym_replay(route, a_src, b_src, delta_src, back_src, ctx, kind, name, seed, check='same'):
+def sym_replay(route, a_src, b_src, delta_src, back_src, ctx, kind, name, seed, check='same', n_calls=None):
   """Witness entry point: raises AssertionError if the check fails."""
-  res = sym_check(route, a_src, b_src, delta_src, back_src, ctx, kind, name, seed)
+  res = sym_check(route, a_src, b_src, delta_src, back_src, ctx, kind, name, seed, n_calls=n_calls)
   assert check in res, f'route {route} not applicable'
   assert res[check][0], res[check][1]
 
@@ -2614,11 +2623,16 @@ def sym_entries(seed, quick=False):
   uni = 'lambda xs: [1.0] * len(xs)'
   ent = []
 
-  def E(cls, kind, tmpl, params, paths=None, spaces=None, pure=False, rng_params=('seed',)):
+  def E(cls, kind, tmpl, params, paths=None, spaces=None, pure=False, rng_params=('seed',), calls=None,
+        label=None):
+    # calls: number of successive calls compared after every change (for
+    # operators whose randomness lives in more than one object: each call
+    # shows one more draw of each source).  label: distinguishes the case ids
+    # of two templates of one class.
     if spaces is None:
       spaces = ('flat',) if kind in ('sel', 'nested', 'evo') else ('wide',)
     ent.append(dict(cls=cls, kind=kind, tmpl=tmpl, params=params, paths=paths or {},
-                    spaces=spaces, pure=pure,
+                    spaces=spaces, pure=pure, calls=calls, label=label,
                     rng=[p for p in params if p in rng_params]))
 
   # Selectors.
@@ -2670,17 +2684,44 @@ def sym_entries(seed, quick=False):
     dict(k=('2', '1', '3', '(lambda step: 2)'), seed=sd), spaces=('wide', 'perm2'))
   E('recombinators.Segmented', 'rec2', 'recombinators.Segmented({cutting_points})',
     dict(cutting_points=('lambda xs: [len(xs) // 2]', 'lambda xs: [1, 3]', 'lambda xs: []')), pure=True)
-  for cls in ('PartiallyMapped', 'Order', 'Cycle'):
+  # Permutation recombinators: the documented random source is `seed`, which
+  # also drives a decision point filter that draws (the default where.ANY, a
+  # where.Any without a seed of its own).  On perm4x (4 permutation points)
+  # the draw of a filter that returns fewer than 4 points decides which
+  # decision is crossed over, so a filter that was left behind by a change
+  # of the operator (or a new filter that was not picked up) shows.
+  n_multi = 3
+  for ci, cls in enumerate(('PartiallyMapped', 'Order', 'Cycle')):
+    mine = ci == seed % 3
     E(f'recombinators.{cls}', 'rec2', f'recombinators.{cls}(where={{where}}, seed={{seed}})',
       dict(where=('where.ALL', 'where.Any(seed=3)', 'lambda xs: xs[:1]'), seed=sd),
       spaces=('perm2', 'perm'))
+    # (default filter)
     E(f'recombinators.{cls}', 'rec2', f'recombinators.{cls}(seed={{seed}})', dict(seed=sd),
-      spaces=('perm6', 'perm2'))
-    if quick and cls != ('PartiallyMapped', 'Order', 'Cycle')[seed % 3]:
+      spaces=('perm4x', 'perm6'), calls=n_multi, label='default-where')
+    if not mine:
+      # (the three classes share this machinery and a call costs 50-100 ms:
+      # the templates below go to one class per seed of the run)
       continue
+    # (towards a filter that takes the seed of the operator, from filters
+    # that do not draw / have a seed of their own / draw another number)
+    E(f'recombinators.{cls}', 'rec2', f'recombinators.{cls}(where={{where}}, seed={{seed}})',
+      dict(where=('where.Any(k=1)', 'where.ALL', 'where.Any(k=1, seed=3)', 'where.Any(k=2)', 'lambda xs: xs[1:3]'),
+           seed=sd),
+      spaces=('perm4x',), calls=n_multi, label='where-draws')
+    # (a filter constructed with a seed; k and both seeds change)
     E(f'recombinators.{cls}', 'rec2', f'recombinators.{cls}(where=where.Any(k={{wk}}, seed={{wseed}}), seed={{seed}})',
-      dict(wk=('2', '1'), wseed=(t, o), seed=(o, t, 'None')),
-      paths=dict(wk='where.k', wseed='where.seed'), rng_params=('seed', 'wseed'), spaces=('perm2',))
+      dict(wk=('1', '2'), wseed=(t, o, 'None'), seed=(o, t, 'None')),
+      paths=dict(wk='where.k', wseed='where.seed'), rng_params=('seed', 'wseed'),
+      spaces=('perm4x',), calls=None if quick else n_multi, label='where-seeded')
+    if quick:
+      continue
+    # (a seeded schedule below the filter: a third random source, with its
+    # own seed)
+    E(f'recombinators.{cls}', 'rec2',
+      f'recombinators.{cls}(where=where.Any(k=scalars.Uniform(1, 3, seed={{kseed}})), seed={{seed}})',
+      dict(kseed=(t, o), seed=(o, t)), paths=dict(kseed='where.k.seed'), rng_params=('seed', 'kseed'),
+      spaces=('perm4x',), calls=n_multi, label='where-scheduled')
   # Compositions: their own parameters and their operands.
   E('base.Choice', 'sel', 'base.Choice([{op0}, {op1}], limit={limit}, seed={seed})',
     dict(op0=('(selectors.First(4), 0.5)', '(selectors.First(4), 0.9)', '(selectors.Top(2), 0.5)'),
@@ -2769,7 +2810,9 @@ def drv_symbolic(tier, seed):
       f'{len(SYM_CONTEXTS)} compositions and an Evolution: rebind by path from the root, rebind of the held '
       'operand, replacement of the operand, clone(override) of the root; copies (clone, deep clone, copy, '
       'deepcopy, JSON round trip); 3 successive calls (steps 0..2) per operator; populations of 6 DNAs '
-      '(selectors), 2-3 parents (DNA operators)')
+      '(selectors), 2-3 parents (DNA operators); permutation recombinators also on a space with 4 permutation '
+      'points with the default filter, where.Any without / with a seed of its own and with a seeded schedule as k '
+      '(the seed of the operator drives the filter as well)')
 
   def case(cid, key, res, wit):
     ok, msg = res
@@ -2781,6 +2824,7 @@ def drv_symbolic(tier, seed):
   vi = 0
   for ei, en in enumerate(entries):
     cls, kind, tmpl, params, paths = en['cls'], en['kind'], en['tmpl'], en['params'], en['paths']
+    tag = f'[{en["label"]}]' if en['label'] else ''
     target = {p: v[0] for p, v in params.items()}
     b_src = tmpl.format(**target)
     variants = []
@@ -2857,8 +2901,8 @@ def drv_symbolic(tier, seed):
               routes.extend((r, c) for r in SYM_CONTEXT_ROUTES)
         for ri, (route, ctx) in enumerate(routes):
           args = (route, a_src, b_src, delta_src, back_src, ctx, kind, name, seed)
-          res = sym_check(*args, verify=(not quick or (ri == 0 and (cheap or primary))),
-                          n_calls=(1 if quick and not cheap and not seed_change else None))
+          n_calls = en['calls'] or (1 if quick and not cheap and not seed_change else None)
+          res = sym_check(*args, verify=(not quick or (ri == 0 and (cheap or primary))), n_calls=n_calls)
           if not res:
             continue
           key = (cls, a_src, b_src, route, ctx, name)
@@ -2867,8 +2911,8 @@ def drv_symbolic(tier, seed):
               SHDR + f'# {args[1]}\n#   brought to {args[3]} via {args[0]}'
               + (f' inside composition {args[5]!r}' if args[5] else '')
               + f'\n# must behave like a fresh {args[2]}\n'
-              f'sym_replay(*{args!r}, check={chk!r})')
-          case(f'symbolic.{cls}.{label}.behaves-as-fresh/{group}', key, res['same'], wit)
+              f'sym_replay(*{args!r}, check={chk!r}, n_calls={n_calls!r})')
+          case(f'symbolic.{cls}{tag}.{label}.behaves-as-fresh/{group}', key, res['same'], wit)
           if 'valid' in res:
             case(f'symbolic.{cls}.valid+aligned', key, res['valid'], lambda: wit(chk='valid'))
           if 'inputs' in res:
